@@ -5,7 +5,7 @@
 use crate::workload::{B, Case};
 use vcommon::Rng;
 
-pub const KNOWN: [&str; 10] = [
+pub const KNOWN: [&str; 12] = [
     "known_width_div",
     "known_width_shr",
     "known_width_index",
@@ -16,6 +16,8 @@ pub const KNOWN: [&str; 10] = [
     "known_reset_wide",
     "known_cond_multibit",
     "known_cast_trunc",
+    "known_allones_literal",
+    "simdefect_fn_arg_context",
 ];
 
 pub fn probe(rng: &mut Rng, which: u64) -> Case {
@@ -114,7 +116,7 @@ pub fn probe(rng: &mut Rng, which: u64) -> Case {
             let o = b.output(4, false);
             b.b(&format!("    assign {o} = if {c} ? {x} : ~{x};"));
         }
-        _ => {
+        9 => {
             let w = 6 + rng.usize(8);
             let m = 2 + rng.usize(w - 3);
             let a = b.input(w, false);
@@ -122,6 +124,25 @@ pub fn probe(rng: &mut Rng, which: u64) -> Case {
             let o = b.output(w, false);
             b.b(&format!("    assign {o} = (({a} + {c}) as {m});"));
         }
+        10 => {
+            // '1 (all ones at the context width) is synthesized as the value 1
+            let w = 3 + rng.usize(20);
+            let s = b.input(1, false);
+            let x = b.input(w, false);
+            let o = b.output(w, false);
+            b.b(&format!("    assign {o} = if {s} ? '1 : {x};"));
+        }
+        11 => {
+            // root cause on the RTL side: the simulator evaluates a function argument expression at its own
+            // width instead of the formal's (IEEE 1800 assignment-like context); the netlist follows IEEE
+            let wa = 4 + rng.usize(4);
+            let wi = 2 + rng.usize(wa - 3);
+            let i = b.input(wi, false);
+            let o = b.output(wa + 2, false);
+            b.d(&format!("    function f0 (\n        a0: input logic<{wa}>,\n    ) -> logic<{}> {{\n        return a0 + 1;\n    }}", wa + 1));
+            b.b(&format!("    assign {o} = f0(({i} << {i}));"));
+        }
+        _ => unreachable!(),
     }
     b.finish(kind)
 }
